@@ -139,6 +139,7 @@ type dbgRef struct {
 	isAddr bool
 	blk    *ssa.BasicBlock
 	idx    int
+	obj    types.Object
 }
 
 type loopInfo struct {
@@ -350,9 +351,23 @@ func (c *fnCtx) boundOf(st *State, comp string) string {
 }
 
 func (c *fnCtx) havocAll(st *State) {
+	// ghost components are specification state: only contracts that name them change them, so
+	// code we know nothing about (dynamic calls, reflection) leaves them alone
+	keep := map[string]string{}
+	var gcs []string
+	for comp := range c.g.compKT {
+		if strings.HasPrefix(comp, "$ghost:") {
+			gcs = append(gcs, comp)
+		}
+	}
+	sort.Strings(gcs)
+	for _, comp := range gcs {
+		kt := c.g.compKT[comp]
+		keep[comp] = c.comp(st, comp, c.sortOf(kt.k, kt.t))
+	}
 	c.nbase++
 	st.base = c.nbase
-	st.heap = map[string]string{}
+	st.heap = keep
 	st.hbound = map[string]string{}
 	c.bumpTop(st)
 	st.baseTop = "$cur"
@@ -1215,6 +1230,18 @@ func (c *fnCtx) convert(st *State, x SymVal, from, to types.Type) SymVal {
 		n := c.fresh("str")
 		c.declare(n, "Str")
 		c.assume(st, sEq(c.lenOfStr(SymVal{K: KStr, S: n}), x.Fs[2].S))
+		if !c.bv {
+			// string(b): the characters are the bytes of b at the time of the conversion
+			if et := elemType(from); et != nil {
+				k := c.fresh("qk")
+				locs := c.leafLocs(app("elm", x.Fs[0].S, app("+", x.Fs[1].S, k)), et)
+				if len(locs) == 1 {
+					cell := app("select", c.comp(st, locs[0].comp, c.sortOf(locs[0].k, locs[0].t)), locs[0].ref)
+					c.assume(st, fmt.Sprintf("(forall ((%s Int)) (! (=> (and (<= 0 %s) (< %s %s)) (= (sat %s %s) %s)) :pattern ((sat %s %s))))",
+						k, k, k, x.Fs[2].S, n, k, cell, n, k))
+				}
+			}
+		}
 		return SymVal{K: KStr, T: to, S: n}
 	case fk == KInt && tk == KStr:
 		n := c.fresh("str")
